@@ -121,6 +121,15 @@ def run_phase(ctx, res, prop, n_quick=36, n_thorough=400):
         tid = len(traces) + 1
         traces.append({"id": "M%d" % tid, "v1": False, "ev": ev})
         info["M%d" % tid] = inf
+    # a second failure while the first is being repaired: the repair cut short by a time-out at each of its exchanges
+    for at in (2, 3, 4):
+        for v1 in (False, True):
+            ev, inf = procmgr.run_lifetime(ctx.scratch, "%s_cutrepair_%d_%d" % (prop, at, v1), True, [], v1, rng,
+                                           start_env=(dict(procmgr.GOOD_ENV), "f"), plat="ledger",
+                                           explicit=procmgr.cut_repair_history(rng, v1, at), cfg=0)
+            tid = len(traces) + 1
+            traces.append({"id": "M%d" % tid, "v1": v1, "ev": ev})
+            info["M%d" % tid] = inf
     # every cause under every configuration of the manager (logging to a file, -D, standard output closed)
     plans_all = [json.loads(u) for u in uniq if json.loads(u)["should"]]
     for cause in sorted({c for p in plans_all for c in p["plan"]}):
